@@ -4,8 +4,13 @@ package main
 
 import (
 	"context"
+	"encoding/json"
 	"fmt"
+	"hash/fnv"
 	"math/rand/v2"
+	"os"
+	"os/exec"
+	"path/filepath"
 	"sort"
 	"strings"
 	"sync"
@@ -326,10 +331,119 @@ func runC09Case(dir string, cs *c09Case, tag string, res *ev.Result) {
 	res.Count("clean_failures_large_objects", 1)
 }
 
+// c09Preinstalled: plugins launched by the runtime itself are synchronized during Start, one after the
+// other, with a state that has to be split; each must receive the complete state and the updates of
+// every one of them must reach the runtime.
+func c09Preinstalled(dir string, res *ev.Result, tag string, names []string, cs *c09Case) {
+	what := map[string]any{"scenario": "pre-installed plugins synchronized at start", "plugins": names, "state": cs}
+	probe := filepath.Join(dir, "probe")
+	build := exec.Command("go", "build", "-tags", "verif", "-o", probe, "./cmd/probe")
+	build.Dir = filepath.Join(ev.VerifDir, "harness")
+	if out, err := build.CombinedOutput(); err != nil {
+		res.Note("building the probe plugin failed: %v %s", err, out)
+		return
+	}
+	root := filepath.Join(dir, "pre-"+tag)
+	plugins, reports := filepath.Join(root, "plugins"), filepath.Join(root, "reports")
+	os.MkdirAll(plugins, 0o755)
+	os.MkdirAll(reports, 0o755)
+	for _, n := range names {
+		if err := os.Link(probe, filepath.Join(plugins, n)); err != nil {
+			res.Note("link: %v", err)
+			return
+		}
+	}
+	rt, err := rig.NewRuntime(root, rig.WithAdaptationOptions(adaptation.WithPluginPath(plugins)))
+	if err != nil {
+		res.Note("runtime: %v", err)
+		return
+	}
+	pods, ctrs := c09State(cs, tag)
+	rt.SetState(pods, ctrs)
+	h := fnv.New64a()
+	for _, p := range pods {
+		fmt.Fprintf(h, "p:%s;", p.GetId())
+	}
+	for _, c := range ctrs {
+		fmt.Fprintf(h, "c:%s;", c.GetId())
+	}
+	wantHash := fmt.Sprintf("%x", h.Sum64())
+	var mu sync.Mutex
+	var got []string
+	var syncErr error
+	calls := 0
+	rt.SyncDone = func(u []*api.ContainerUpdate, err error) {
+		mu.Lock()
+		defer mu.Unlock()
+		calls++
+		syncErr = err
+		for _, x := range u {
+			got = append(got, x.GetContainerId())
+		}
+	}
+	d := make(chan struct{})
+	var serr error
+	go func() { defer close(d); serr = rt.Start() }()
+	if rig.Await(d, 30*time.Second, 120*time.Second) == "hang" {
+		res.Violate("C09/hang", "Start with pre-installed plugins and a split state did not return; goroutines:\n"+nriStacks(), what)
+		return
+	}
+	defer rt.Stop()
+	if serr != nil {
+		res.Violate("C09/preinstalled-start-failed", fmt.Sprintf("Start failed: %v", serr), what)
+		return
+	}
+	mu.Lock()
+	defer mu.Unlock()
+	if calls != 1 || syncErr != nil {
+		res.Note("%s: synchronization function ran %d times, error %v", tag, calls, syncErr)
+		res.Inconcl()
+		return
+	}
+	var want []string
+	for _, n := range names {
+		want = append(want, "syncupd-"+n)
+		files, _ := filepath.Glob(filepath.Join(reports, "syncstate."+n+".*"))
+		if len(files) != 1 {
+			res.Violate("C09/preinstalled-not-synchronized", fmt.Sprintf("pre-installed plugin %s: %d synchronization reports, want 1", n, len(files)), what)
+			continue
+		}
+		var st struct {
+			Pods, Containers int
+			Idhash           string
+		}
+		b, _ := os.ReadFile(files[0])
+		json.Unmarshal(b, &st)
+		if st.Pods != len(pods) || st.Containers != len(ctrs) || st.Idhash != wantHash {
+			res.Violate("C09/state-differs", fmt.Sprintf("pre-installed plugin %s received %d pods and %d containers (id hash %s), the runtime supplied %d and %d (id hash %s)", n, st.Pods, st.Containers, st.Idhash, len(pods), len(ctrs), wantHash), what)
+		}
+	}
+	sort.Strings(got)
+	sort.Strings(want)
+	if strings.Join(got, ",") != strings.Join(want, ",") {
+		res.Violate("C09/updates-lost", fmt.Sprintf("updates returned by the synchronization handlers of the pre-installed plugins that reached the runtime: %v, want one per plugin: %v", got, want), what)
+	}
+	res.Seen(fmt.Sprintf("preinstalled|%d|split%v", len(names), cs.Total > 4<<20))
+}
+
 func runC09(c *ev.ChildEnv, res *ev.Result) {
 	rig.QuietLogs()
 	adaptation.SetPluginRequestTimeout(30 * time.Second)
 	adaptation.SetPluginRegistrationTimeout(30 * time.Second)
+	if c.Batch%3 == 0 {
+		big := &c09Case{Name: "preinstalled-split", Pods: rep(3, 200), Ctrs: rep(100, 60<<10)}
+		big.finish()
+		small := &c09Case{Name: "preinstalled-small", Pods: rep(2, 100), Ctrs: rep(5, 100)}
+		small.finish()
+		for i, pc := range []struct {
+			names []string
+			cs    *c09Case
+		}{{[]string{"10-a", "20-b", "30-c"}, big}, {[]string{"05-x", "50-y"}, small}, {[]string{"10-only"}, big}} {
+			c.WAL("preinstalled %d", i)
+			res.Eval()
+			c09Preinstalled(c.Dir, res, fmt.Sprintf("pi%d", i), pc.names, pc.cs)
+		}
+	}
 	g := rand.New(rand.NewPCG(uint64(c.Seed), 900)) // same list in every child
 	cases := c09Cases(g, c.Tier)
 	for n := 4; n <= 7; n++ {
